@@ -361,6 +361,34 @@ def p_return_in_else_only(x, y):
     return z * 2
 
 
+def p_for_loop(x, k):
+    r = 0.0
+    for _ in range(2):
+        r = r + k * x
+    return r
+
+
+def p_augassign(x, y):
+    r = x
+    r += y
+    return r * 2
+
+
+def p_while(x, y):
+    r = x
+    n = 0
+    while n < 2:
+        r = r * y
+        n = n + 1
+    return r
+
+
+def p_docstring_pass(x, y):
+    """A docstring and a pass statement carry no meaning."""
+    pass
+    return x - y
+
+
 PROGRAMS = [v for k, v in sorted(globals().items()) if k.startswith("p_") and callable(v)]
 # constructs with an open finding on the pinned tree: kept out of composites, probed individually
 FINDING_PROBES = {"p_if_assign_branch", "p_if_else_assign_then_return", "p_return_in_else_only"}
